@@ -1,4 +1,325 @@
-//! segment-side cases (filled in as the checks that need them are built)
-pub fn cmd_open(_a: &[&str]) -> String { "unimplemented".into() }
-pub fn cmd_snapshot_script(_a: &[&str]) -> String { "unimplemented".into() }
-pub fn cmd_writegen(_a: &[&str]) -> String { "unimplemented".into() }
+//! segment-side cases: the REAL ShmReader / ShmWriter on a private file under /dev/shm, with the
+//! cfg-gated atomic shim's observer used to script what a reader observes (replay of weak-memory
+//! models) and to look at the segment while an update is in flight.
+use clock_bound_shm::verif_shim::{set_observer, Access};
+use clock_bound_shm::{ClockErrorBound, ClockStatus, ShmReader, ShmWrite, ShmWriter};
+use std::ffi::CString;
+use std::io::Write;
+use std::sync::atomic::{AtomicUsize, Ordering};
+
+static COUNTER: AtomicUsize = AtomicUsize::new(0);
+
+pub fn tmp_path(tag: &str) -> String {
+    let n = COUNTER.fetch_add(1, Ordering::SeqCst);
+    format!("/dev/shm/verif-{}-{}-{}", std::process::id(), tag, n)
+}
+
+pub fn header_bytes(segsize: u32, version: u16, generation: u16) -> Vec<u8> {
+    let mut v = Vec::new();
+    v.extend_from_slice(&0x414D5A4Eu32.to_ne_bytes());
+    v.extend_from_slice(&0x43420200u32.to_ne_bytes());
+    v.extend_from_slice(&segsize.to_ne_bytes());
+    v.extend_from_slice(&version.to_ne_bytes());
+    v.extend_from_slice(&generation.to_ne_bytes());
+    v
+}
+
+pub fn write_file(path: &str, bytes: &[u8]) {
+    let mut f = std::fs::File::create(path).expect("create");
+    f.write_all(bytes).expect("write");
+    f.sync_all().ok();
+}
+
+/// a writable mapping of the file, for the replay driver itself
+pub struct DriverMap {
+    pub ptr: *mut u8,
+    pub len: usize,
+}
+
+impl DriverMap {
+    pub fn new(path: &str, len: usize) -> DriverMap {
+        let c = CString::new(path).unwrap();
+        unsafe {
+            let fd = libc::open(c.as_ptr(), libc::O_RDWR);
+            assert!(fd >= 0);
+            let p = libc::mmap(std::ptr::null_mut(), len, libc::PROT_READ | libc::PROT_WRITE, libc::MAP_SHARED, fd, 0);
+            libc::close(fd);
+            assert!(p != libc::MAP_FAILED);
+            DriverMap { ptr: p as *mut u8, len }
+        }
+    }
+    pub fn put_u16(&self, off: usize, v: u16) {
+        unsafe { std::ptr::write_volatile(self.ptr.add(off) as *mut u16, v) }
+    }
+    pub fn get_u16(&self, off: usize) -> u16 {
+        unsafe { std::ptr::read_volatile(self.ptr.add(off) as *const u16) }
+    }
+    pub fn put_word(&self, i: usize, tag: i64) {
+        // words 0..4 are i64 fields, word 5 = (max_drift_ppb u32, reserved1 u32), word 6 = (clock_status u32, padding)
+        unsafe {
+            let p = self.ptr.add(16 + 8 * i);
+            match i {
+                5 => {
+                    std::ptr::write_volatile(p as *mut u32, (tag + 16) as u32);
+                    std::ptr::write_volatile(p.add(4) as *mut u32, (tag + 16) as u32);
+                }
+                6 => {
+                    std::ptr::write_volatile(p as *mut u32, ((tag + 3).rem_euclid(3)) as u32);
+                    std::ptr::write_volatile(p.add(4) as *mut u32, 0);
+                }
+                _ => std::ptr::write_volatile(p as *mut i64, tag),
+            }
+        }
+    }
+}
+
+impl Drop for DriverMap {
+    fn drop(&mut self) {
+        unsafe {
+            libc::munmap(self.ptr as *mut libc::c_void, self.len);
+        }
+    }
+}
+
+/// decode a record produced by put_word back into per-word tags (word 6 only modulo 3)
+pub fn tags_of(ceb: &ClockErrorBound) -> String {
+    let b: [u8; 56] = unsafe { std::mem::transmute_copy(ceb) };
+    let w = |i: usize| i64::from_ne_bytes(b[8 * i..8 * i + 8].try_into().unwrap());
+    let d = u32::from_ne_bytes(b[40..44].try_into().unwrap()) as i64 - 16;
+    let r = u32::from_ne_bytes(b[44..48].try_into().unwrap()) as i64 - 16;
+    let s = u32::from_ne_bytes(b[48..52].try_into().unwrap()) as i64;
+    format!("{}/{}/{}/{}/{}/{}:{}/m{}", w(0), w(1), w(2), w(3), w(4), d, r, s)
+}
+
+fn status_of(n: i64) -> ClockStatus {
+    match n.rem_euclid(3) {
+        1 => ClockStatus::Synchronized,
+        2 => ClockStatus::FreeRunning,
+        _ => ClockStatus::Unknown,
+    }
+}
+
+/// writegen <start generation>: run the real ShmWriter::write once from the given generation and report the
+/// values it stores into the generation field, what memory holds right before the final store, and whether the
+/// record had been written by then.
+pub fn cmd_writegen(a: &[&str]) -> String {
+    let g0: u16 = a.get(0).and_then(|x| x.parse().ok()).unwrap_or(2);
+    let path = tmp_path("wg");
+    let mut bytes = header_bytes(72, 1, g0);
+    bytes.extend_from_slice(&[0u8; 56]);
+    write_file(&path, &bytes);
+    let res = std::panic::catch_unwind(|| {
+        let mut w = ShmWriter::new(std::path::Path::new(&path)).expect("ShmWriter::new");
+        let drv = DriverMap::new(&path, 72);
+        let drv_ptr = drv.ptr as usize;
+        let log: std::rc::Rc<std::cell::RefCell<Vec<String>>> = Default::default();
+        let log2 = log.clone();
+        let mut nstore = 0;
+        set_observer(Some(Box::new(move |acc| {
+            if let Access::Store { value, .. } = acc {
+                nstore += 1;
+                let mem_gen = unsafe { std::ptr::read_volatile((drv_ptr + 14) as *const u16) };
+                let mem_bound = unsafe { std::ptr::read_volatile((drv_ptr + 16 + 32) as *const i64) };
+                log2.borrow_mut().push(format!("store{}={} mem_gen_before{}={} mem_bound_before{}={}", nstore, value, nstore, mem_gen, nstore, mem_bound));
+            }
+        })));
+        let ceb = ClockErrorBound::new(
+            libc::timespec { tv_sec: 7, tv_nsec: 7 },
+            libc::timespec { tv_sec: 7, tv_nsec: 7 },
+            777,
+            7,
+            7,
+            ClockStatus::Synchronized,
+        );
+        w.write(&ceb);
+        set_observer(None);
+        let fin = drv.get_u16(14);
+        let l = log.borrow().join(" ");
+        format!("{} final_mem={}", l, fin)
+    });
+    let _ = std::fs::remove_file(&path);
+    match res {
+        Ok(s) => {
+            // normalise: inflight = first stored value, final = second
+            let mut inflight = String::new();
+            let mut fin = String::new();
+            for tok in s.split_whitespace() {
+                if let Some(v) = tok.strip_prefix("store1=") {
+                    inflight = v.to_string();
+                }
+                if let Some(v) = tok.strip_prefix("store2=") {
+                    fin = v.to_string();
+                }
+            }
+            format!("ok inflight={} final={} {}", inflight, fin, s.replace(' ', " "))
+        }
+        Err(p) => format!("panic {}", crate::panic_msg(&p)),
+    }
+}
+
+/// snapshot_script pre=<gen>:<tag>|- call=<obs>;<obs>;... call=...
+///   obs := <offset>=<value>[:<t0>/<t1>/.../<t6>]   value observed by the next atomic load at that offset, optionally
+///          followed by the record word tags that the plain reads after this load observe
+pub fn cmd_snapshot_script(a: &[&str]) -> String {
+    let path = tmp_path("ss");
+    let mut bytes = header_bytes(72, 1, 2);
+    bytes.extend_from_slice(&[0u8; 56]);
+    write_file(&path, &bytes);
+    let cpath = CString::new(path.clone()).unwrap();
+    let res = std::panic::catch_unwind(std::panic::AssertUnwindSafe(|| {
+        let mut reader = ShmReader::new(&cpath).expect("ShmReader::new");
+        let drv = DriverMap::new(&path, 72);
+        let mut out = Vec::new();
+        for arg in a {
+            if let Some(pre) = arg.strip_prefix("pre=") {
+                if pre != "-" {
+                    let mut it = pre.split(':');
+                    let g: u16 = it.next().unwrap().parse().unwrap();
+                    let t: i64 = it.next().unwrap().parse().unwrap();
+                    drv.put_u16(12, 1);
+                    drv.put_u16(14, g);
+                    for i in 0..7 {
+                        drv.put_word(i, t);
+                    }
+                    let r = reader.snapshot().map(|c| tags_of(c));
+                    out.push(format!("pre={:?}", r.is_ok()));
+                }
+            } else if let Some(script) = arg.strip_prefix("call=") {
+                let obs: Vec<(usize, u16, Option<Vec<i64>>)> = script
+                    .split(';')
+                    .filter(|s| !s.is_empty())
+                    .map(|o| {
+                        let mut p = o.split(':');
+                        let mut lv = p.next().unwrap().split('=');
+                        let off: usize = lv.next().unwrap().parse().unwrap();
+                        let val: u16 = lv.next().unwrap().parse().unwrap();
+                        let words = p.next().map(|w| w.split('/').map(|x| x.parse::<i64>().unwrap()).collect());
+                        (off, val, words)
+                    })
+                    .collect();
+                let drv_ptr = drv.ptr as usize;
+                let base = drv_ptr;
+                let mut k = 0usize;
+                let nobs = obs.len();
+                let obs2 = obs.clone();
+                let misuse = std::rc::Rc::new(std::cell::Cell::new(0usize));
+                let misuse2 = misuse.clone();
+                let seg_base = std::rc::Rc::new(std::cell::Cell::new(0usize));
+                let seg_base2 = seg_base.clone();
+                set_observer(Some(Box::new(move |acc| {
+                    if let Access::Load { addr, .. } = acc {
+                        if k >= nobs {
+                            misuse2.set(misuse2.get() + 1);
+                            return;
+                        }
+                        let (off, val, ref words) = obs2[k];
+                        // the reader's mapping and the driver's mapping are different addresses of the same page:
+                        // identify the location by its offset within the page
+                        if seg_base2.get() == 0 {
+                            seg_base2.set(addr - (addr & 0xfff));
+                        }
+                        let aoff = addr & 0xfff;
+                        if aoff != off {
+                            misuse2.set(misuse2.get() + 100);
+                        }
+                        unsafe { std::ptr::write_volatile((base + off) as *mut u16, val) };
+                        if let Some(ws) = words {
+                            let d = DriverMap { ptr: base as *mut u8, len: 0 };
+                            for (i, t) in ws.iter().enumerate() {
+                                d.put_word(i, *t);
+                            }
+                            std::mem::forget(d);
+                        }
+                        k += 1;
+                    }
+                })));
+                let r = match reader.snapshot() {
+                    Ok(c) => format!("ok:{}", tags_of(c)),
+                    Err(e) => format!("err:{:?}", e),
+                };
+                set_observer(None);
+                out.push(format!("call={} script_misuse={}", r, misuse.get()));
+            }
+        }
+        out.join(" ")
+    }));
+    let _ = std::fs::remove_file(&path);
+    match res {
+        Ok(s) => format!("ok {}", s),
+        Err(p) => format!("panic {}", crate::panic_msg(&p)),
+    }
+}
+
+/// snapshot_stall <ms>: a fresh reader starts copying under an even generation; from its second generation load
+/// on, the generation is odd for ever (writer died mid-update). Reports whether snapshot() returns within <ms>.
+pub fn cmd_snapshot_stall(a: &[&str]) -> String {
+    let ms: u64 = a.get(0).and_then(|x| x.parse().ok()).unwrap_or(3000);
+    let path = tmp_path("st");
+    let mut bytes = header_bytes(72, 1, 2);
+    bytes.extend_from_slice(&[0u8; 56]);
+    write_file(&path, &bytes);
+    let (tx, rx) = std::sync::mpsc::channel();
+    let p2 = path.clone();
+    std::thread::spawn(move || {
+        let cpath = CString::new(p2.clone()).unwrap();
+        let mut reader = ShmReader::new(&cpath).expect("ShmReader::new");
+        let drv = DriverMap::new(&p2, 72);
+        let base = drv.ptr as usize;
+        let mut n = 0usize;
+        let count = std::rc::Rc::new(std::cell::Cell::new(0usize));
+        let count2 = count.clone();
+        set_observer(Some(Box::new(move |acc| {
+            if let Access::Load { .. } = acc {
+                n += 1;
+                count2.set(n);
+                if n >= 3 {
+                    unsafe { std::ptr::write_volatile((base + 14) as *mut u16, 3) };
+                }
+            }
+        })));
+        let t0 = std::time::Instant::now();
+        let r = reader.snapshot().is_ok();
+        let _ = tx.send(format!("returned ok={} loads={} ms={}", r, count.get(), t0.elapsed().as_millis()));
+    });
+    let r = match rx.recv_timeout(std::time::Duration::from_millis(ms)) {
+        Ok(s) => s,
+        Err(_) => {
+            let _ = std::fs::remove_file(&path);
+            println!("timeout snapshot() did not return within {} ms against a writer stalled on an odd generation", ms);
+            std::process::exit(0);
+        }
+    };
+    let _ = std::fs::remove_file(&path);
+    r
+}
+
+/// open <hex bytes of the file | MISSING | DIR>: outcome of ShmReader::new and of ClockBoundClient::new_with_path
+pub fn cmd_open(a: &[&str]) -> String {
+    let path = tmp_path("op");
+    match a.get(0).copied().unwrap_or("") {
+        "MISSING" => {}
+        "DIR" => {
+            std::fs::create_dir_all(&path).ok();
+        }
+        hex => {
+            let bytes: Vec<u8> = (0..hex.len() / 2).map(|i| u8::from_str_radix(&hex[2 * i..2 * i + 2], 16).unwrap_or(0)).collect();
+            write_file(&path, &bytes);
+        }
+    }
+    let cpath = CString::new(path.clone()).unwrap();
+    let r = std::panic::catch_unwind(|| match ShmReader::new(&cpath) {
+        Ok(_) => "Ok".to_string(),
+        Err(e) => crate::shm_err_pub(&e),
+    });
+    let r2 = std::panic::catch_unwind(|| match clock_bound_client::ClockBoundClient::new_with_path(&path) {
+        Ok(_) => "Ok".to_string(),
+        Err(e) => format!("{:?} errno={}", e.kind, e.errno.0),
+    });
+    let _ = std::fs::remove_file(&path);
+    let _ = std::fs::remove_dir(&path);
+    format!(
+        "reader={} client={}",
+        r.unwrap_or_else(|p| format!("panic {}", crate::panic_msg(&p))).replace(' ', "_"),
+        r2.unwrap_or_else(|p| format!("panic {}", crate::panic_msg(&p))).replace(' ', "_")
+    )
+}
